@@ -123,7 +123,8 @@ def subimage(arr, center, shape):
 
     if np.isscalar(shape):
         shape = np.repeat(shape, arr.ndim)
-    assert len(shape) == arr.ndim
+    # an (x, y) shape, as documented, or one entry per array dimension
+    assert len(shape) in (2, arr.ndim)
 
     def intr(n):
         return intr(np.round(n))
